@@ -81,6 +81,18 @@ impl<C: Config> Engine<C> {
 
                 computing.register_calee(calee_target);
 
+                #[cfg(feature = "verif")]
+                qbice_verif_rt::events::edge(
+                    (
+                        caller.query_id().stable_type_id().as_u128(),
+                        caller.query_id().hash_128(),
+                    ),
+                    (
+                        calee_target.stable_type_id().as_u128(),
+                        calee_target.hash_128(),
+                    ),
+                );
+
                 Some(UndoRegisterCallee::new(computing.clone(), *calee_target))
             },
         )
